@@ -1,5 +1,6 @@
 """C12 -- stats counts add up (structural clauses)."""
 import ast
+import re
 
 from sa.model import walk_function, AnalysisError
 from sa.norm import u, atoms, guard_atoms, linear
@@ -199,7 +200,29 @@ def r3(ctx):
         if not isinstance(ex, ast.Break):
             continue
         ga = guard_atoms(cfg, cfg.node_of(ex))
-        ok = ("given_chromosomes", True) in ga and any(t.replace(" ", "") in ("set(given_chromosomes)<=seen_chromosomes", "seen_chromosomes<set(given_chromosomes)") and ((p and "<=" in t) or (not p and "<=" not in t)) for t, p in ga) or any("set(given_chromosomes) LtE seen_chromosomes" in t and p for t, p in ga)
+        # `requested <= seen` (canonical: not (seen < requested)), requested = set(given_chromosomes) directly or through a local
+        def is_requested(txt):
+            txt = txt.strip()
+            forms = ("set(given_chromosomes)", "set(given_chromosomes or ())", "frozenset(given_chromosomes)", "set(given_chromosomes or [])")
+            if txt in forms:
+                return True
+            if txt.isidentifier():
+                d_ = util.single_def(run.node, txt)
+                return d_ is not None and u(d_) in forms
+            return False
+
+        sub = False
+        for t, p_ in ga:
+            m_ = re.fullmatch(r"seen_chromosomes < (.+)", t)
+            if m_ and not p_ and is_requested(m_.group(1)):
+                sub = True
+            m_ = re.fullmatch(r"(.+) <= seen_chromosomes", t)
+            if m_ and p_ and is_requested(m_.group(1)):
+                sub = True
+            m_ = re.fullmatch(r"(.+) LtE seen_chromosomes", t)
+            if m_ and p_ and is_requested(m_.group(1)):
+                sub = True
+        ok = ("given_chromosomes", True) in ga and sub
         ctx.ob(run.qual, "early-exit-only-when-all-requested-seen", ok, run.loc(ex), "the chromosome loop stops early only when every requested chromosome has been seen" if ok else "the chromosome loop can stop before all requested chromosomes were processed (guards: %s)" % sorted(t for t, p in ga if "chrom" in t))
         sd = [c_ for c_ in ctx.prog.calls_in(loop) if u(c_.func) == "seen_chromosomes.add"]
         ok2 = len(sd) == 1 and u(sd[0].args[0]) == "chromosome" and cfg.dominates(cfg.node_containing(sd[0]), cfg.node_of(ex))
@@ -259,17 +282,24 @@ def r4(ctx):
     # a phase block's extent is maintained by add(): min / max over its variants
     add = ctx.func(MOD + ".PhasedBlock.add")
     cfg = ctx.cfg(add)
-    okl = okr = False
-    for n in walk_function(add.node):
-        if isinstance(n, ast.Assign) and u(n.targets[0]) == "self.leftmost_variant" and u(n.value) == "variant":
-            ga = guard_atoms(cfg, cfg.node_of(n))
-            if ("variant < self.leftmost_variant", True) in ga:
-                okl = True
-        if isinstance(n, ast.Assign) and u(n.targets[0]) == "self.rightmost_variant" and u(n.value) == "variant":
-            ga = guard_atoms(cfg, cfg.node_of(n))
-            if ("self.rightmost_variant < variant", True) in ga:
-                okr = True
-    ctx.ob(add.qual, "extent-min-max", okl and okr, add.loc(), "leftmost/rightmost are updated under variant < leftmost / rightmost < variant" if okl and okr else "PhasedBlock.add does not maintain leftmost as minimum and rightmost as maximum")
+    # per path: the extent is overwritten with the new variant exactly when the block was empty or the variant lies outside it
+    from sa import pathfx
+    from rules.common import path_implies
+
+    sums = pathfx.summaries(cfg)
+    EMPTY, LT, GT = "self.phases", "variant < self.leftmost_variant", "self.rightmost_variant < variant"
+    bad = None
+    for ps in sums:
+        for attr, cmp_ in (("leftmost_variant", LT), ("rightmost_variant", GT)):
+            st_ = [e_ for e_ in ps.effects if e_[0] == "store" and u(e_[1]) == "self.%s" % attr]
+            if st_:
+                okp = all(u(e_[2]) == "variant" for e_ in st_) and path_implies(ps.atoms, [EMPTY, cmp_], lambda env, c_=cmp_: (not env[EMPTY]) or env[c_])
+            else:
+                okp = path_implies(ps.atoms, [EMPTY, cmp_], lambda env, c_=cmp_: env[EMPTY] and not env[c_])
+            if not okp and bad is None:
+                bad = (ps, attr, bool(st_))
+    ok = bad is None and len(sums) >= 3
+    ctx.ob(add.qual, "extent-min-max", ok, add.loc(), "on all %d paths of PhasedBlock.add: leftmost/rightmost become the new variant exactly when the block was empty or the variant lies left/right of the extent" % len(sums) if ok else "PhasedBlock.add does not maintain leftmost as minimum and rightmost as maximum (%s is %s on a path where that is wrong)" % (bad[1] if bad else "?", "overwritten" if bad and bad[2] else "kept"), cfg.describe_path(bad[0].path) if bad else None)
 
 
 def r5(ctx):
